@@ -31,7 +31,7 @@ func zzStubSm3Sum13(data []byte) []byte {
 	return vUFBytes("sm3."+strconv.Itoa(len(data)), 32, data)
 }
 func zzStubZA13(pub *PublicKey, uid []byte) ([]byte, error) {
-	return vUFBytes("za", 32, pub.X.FillBytes(make([]byte, 4)), pub.Y.FillBytes(make([]byte, 4)), uid), nil
+	return vUFBytes("za", 32, pub.X.FillBytes(make([]byte, 32)), pub.Y.FillBytes(make([]byte, 32)), uid), nil
 }
 func zzStubCurve13() elliptic.Curve { return zzKx.curve }
 
@@ -47,7 +47,7 @@ func zzKeyN(g *zzGroup, name string) *PrivateKey {
 //
 //verif:property C13
 //verif:expect-reach end
-//verif:bound abstract prime-order group of order 257 in place of the curve, long-term and ephemeral scalars from {1,2,3,100,254,255} (quick) / {1,2,3,4,100,128,253,254,255} (thorough), identities of 2 symbolic bytes, klen 16; Z values, KDF and SM3 arbitrary functions of their inputs; on native replay random real keys are drawn until a shared point with a short coordinate is found and the result is compared with a direct computation of the standard's formulas
+//verif:bound abstract prime-order group of order 257 in place of the curve with coordinates of 4/4, 32/4 and 4/32 significant bytes, long-term and ephemeral scalars from {1,2,3,100,254,255} (quick) / {1,2,3,4,100,128,253,254,255} (thorough), identities of 2 symbolic bytes, klen 16; Z values, KDF and SM3 arbitrary functions of their inputs; on native replay random real keys are drawn until a shared point with a short coordinate is found and the result is compared with a direct computation of the standard's formulas
 //verif:outside the real curve arithmetic (C03), SM3 (C04); equality of the two sides' shared point (modular arithmetic, not decided symbolically)
 //verif:stub-symbolic github.com/tjfoc/gmsm/sm2.kdf zzStubKdf13
 //verif:stub-symbolic github.com/tjfoc/gmsm/sm3.Sm3Sum zzStubSm3Sum13
@@ -60,7 +60,10 @@ func zzH_c13_agree() {
 		zzNativeKx(ida, idb)
 		return
 	}
-	g := zzNewGroup(257)
+	// coordinates of equal and of different byte lengths, so that the 32-byte padding of each
+	// coordinate in the KDF and hash inputs is exercised separately
+	shape := [][2]int{{4, 4}, {32, 4}, {4, 32}}[vChoice("coordBytes", 3)]
+	g := zzNewGroupShape(257, shape[0], shape[1])
 	zzKx.curve = g
 	var dA, dB, rA, rB *PrivateKey
 	{
